@@ -339,14 +339,30 @@ def classify_vmdk_lines(lines):
 def build_vmdk(lines=VMDK_DEFAULT_LINES, version=1, capacity=20480,
                desc_off=1, desc_num=None, footer=False, grain_data=1024,
                fill=1, sig=b'KDMV', newline='\n', hdr_fill=0,
-               footer_over=None, desc_raw=None, truncate=None):
+               footer_over=None, desc_raw=None, truncate=None,
+               exact_fill=False, final_newline=True, type_last=False):
     """Hosted sparse extent: header, descriptor at sector desc_off padded
     with NULs to desc_num sectors, grain data, optional footer triple.
 
     footer_over: dict overriding footer parts: any vmdk_header kwarg for the
     footer's header copy, plus fm_val/fm_size/fm_typ/fm_pad and
     eos_val/eos_size/eos_typ/eos_pad for the two markers."""
-    text = newline.join(lines).encode('ascii', 'replace') + newline.encode()
+    if type_last:
+        # the createType line moved to the end of the descriptor
+        lines = [x for x in lines if not x.startswith('createType')] + \
+            [x for x in lines if x.startswith('createType')]
+    text = newline.join(lines).encode('ascii', 'replace')
+    if final_newline:
+        text += newline.encode()
+    if exact_fill:
+        # a comment line after the first one makes the text fill its
+        # sectors exactly: no NUL padding at all behind it
+        first, _sep, rest = text.partition(newline.encode())
+        short = -(len(text) + 2 + len(newline)) % 512
+        filler = b'#' + b'.' * (short + 1) + newline.encode()
+        text = first + newline.encode() + filler + rest
+        if len(text) % 512:
+            raise ValueError('exact_fill arithmetic')
     if desc_raw is not None:
         text = desc_raw
     need = max(1, -(-len(text) // 512))
@@ -417,7 +433,8 @@ def build_vmdk(lines=VMDK_DEFAULT_LINES, version=1, capacity=20480,
                     sig=sig.decode('latin-1'), newline=newline,
                     hdr_fill=hdr_fill, footer_over=footer_over,
                     desc_raw=None if desc_raw is None else desc_raw.hex(),
-                    truncate=truncate),
+                    truncate=truncate, exact_fill=exact_fill,
+                    final_newline=final_newline, type_last=type_last),
                vsize=capacity * 512, boundaries=bounds, size_field_end=20,
                struct_end=desc_end, unsafe=unsafe,
                clean=(not unsafe) and truncate is None and
@@ -721,7 +738,11 @@ FIELDS = {
     'vmdk': [(4, 4, 'little'), (8, 4, 'little'), (12, 8, 'little'),
              (20, 8, 'little'), (28, 8, 'little'), (36, 8, 'little'),
              (44, 4, 'little'), (48, 8, 'little'), (56, 8, 'little'),
-             (64, 8, 'little')],
+             (64, 8, 'little'),
+             # rest of the documented SparseExtentHeader: uncleanShutdown,
+             # the four end-of-line canary characters, compressAlgorithm
+             (72, 1, 'little'), (73, 1, 'little'), (74, 1, 'little'),
+             (75, 1, 'little'), (76, 1, 'little'), (77, 2, 'little')],
     'vdi': [(0x44, 4, 'little'), (0x48, 4, 'little'), (0x4c, 4, 'little'),
             (0x154, 4, 'little'), (0x158, 4, 'little'), (0x15c, 4, 'little'),
             (0x170, 8, 'little'), (0x178, 4, 'little'), (0x180, 4, 'little'),
